@@ -326,7 +326,7 @@ PROPS = {
         coq="Properties/C16.v",
         suites=[e2e_suite("stop", ["stop_now_did_not_terminate", "stop_now_not_prompt", "graceful_stop_did_not_terminate", "graceful_stop_left_work_undone", "confirmed_left_unrecorded_at_exit"], n=24),
                 e2e_suite("plain,faults,vanish", ["pipeline_never_drains_after_vanished_file"], n=8),
-                e2e_suite("stopfail", ["graceful_stop_did_not_terminate", "stop_now_did_not_terminate"], n=6)],
+                e2e_suite("stopfail,stopretry", ["graceful_stop_did_not_terminate", "stop_now_did_not_terminate"], n=5)],
         rule=E2E_RULE,
         level_text=("Partial. Proof: every poll verdict resolves the file and only confirmed files are recorded done. Exploration: both kinds of stop injected at "
                     "random interface-event indexes (incl. immediately after start = one-shot run), with and without request failures: the sender must exit "
@@ -338,13 +338,18 @@ PROPS = {
     ),
     "C19": dict(
         coq="Properties/C19.v",
-        suites=[dict(name="conf", pkg=".", test="TestVerifConf", min_lines=1000)],
+        suites=[dict(name="conf", pkg=".", test="TestVerifConf", min_lines=1000),
+                dict(name="tags", pkg="./main/", test="TestVerifTags", min_lines=100, timeout_quick=600,
+                     env_quick={"VERIF_N": 150}, env_thorough={"VERIF_N": 3000})],
         rule=("conf: seeded documents generated from the schema: 1..3 sources each with threads / min-age / compress / poll-attempts / out-dir / target "
               "(key, quic-enable-datagrams, http3-port) / stat-payload / include-hidden / error-backoff / include / ignore and 0..3 tags (priority, order, "
               "chunk-size, last-delay, delete), every option omitted / explicitly zero-or-false / given; rendered as YAML or JSON (50/50), parsed by the real "
               "ClientConf unmarshalling, then json.Marshal'ed and parsed again (as main/controlled.go does); effective values of every source and tag before and "
               "after re-encoding are compared with the model; 2/3 of the documents avoid what the language cannot express (finding domain in the rest); "
-              "non-trivial = at least two sources; distinct = distinct input lines"),
+              "non-trivial = at least two sources; distinct = distinct input lines. tags: the REAL clientApp.init() on generated tag lists (0..4 pattern "
+              "tags from 13 patterns: anchored, unanchored literals, character classes, end anchors; methods http / none) x 5 group-by patterns; for 12..13 "
+              "names each (fragments joined by '/', extensions, the pattern texts themselves) the tag handed to broker and queue is compared with the "
+              "model's first-match rule (regexp verdicts computed with the library directly)"),
         level_text=("Proof: omitted options inherit the predecessor's (the default tag's) value, given values are never overridden, an explicit false is kept for "
                     "the options that carry a marker (stat-payload, error-backoff, delete), re-encoding is a fixed point of the effective configuration when "
                     "'%f' preserves error-backoff, and a file gets the first pattern tag matching its group; refuted with witnesses (known findings) for options "
@@ -360,7 +365,7 @@ PROPS = {
     "C14": dict(
         coq="Properties/C14.v",
         suites=[dict(name="http", pkg="./main/", test="TestVerifHTTP", min_lines=500, timeout_quick=900,
-                     oracles=["touched_file_outside_configured_directories"],
+                     oracles=["touched_file_outside_configured_directories", "touched_file_of_another_source", "disclosed_file_of_another_source"],
                      diffs=["escaping-name-not-refused", "local-name-refused", "static-served-unsafe-path"])],
         rule=HTTP_RULE,
         level_text=("Proof: every name accepted by the routes' guard (filepath.IsLocal and not the directory itself) resolves, by the lexical Clean+Join the "
